@@ -1,7 +1,9 @@
 # Table of claims; exec'd by gen_manifest.py.
 COMMON_NOTE = ("Trusted base: go/types, go/ssa, go/packages, callgraph cha/vta (x/tools v0.50.0, Go 1.26.8 front end); the rule tables in "
                "/verif/tool. Decides only the named structural clauses (necessary conditions), not the behaviour; dominance is computed "
-               "without pruning infeasible paths except boolean-flag correlation.")
+               "without pruning infeasible paths except boolean-flag correlation and the return statement of an inlined same-package helper. "
+               "After its own rules each check also runs the rules of the mechanisms the property depends on (tool/support.go; every rule run is "
+               "listed with its instance count in the evidence): an open store always has the flusher and both collectors running behind every call.")
 
 claim("C16", "DESIGN.md §2 C16",
       "Interprocedural must-hold lockset analysis from the thread roots the statement names: for every field of the store's shared structs, every conflicting access pair from concurrently runnable roots shares a lock held exclusively on one side; lock acquire/release is balanced on all paths; lock order is acyclic. A necessary condition of race freedom decided for all paths and call chains at once; channel happens-before, aliasing beyond the field abstraction and Open/Close/iterator entry points are not covered.",
@@ -55,7 +57,7 @@ claim("C04", "DESIGN.md §2 C04",
 
 claim("C05", "DESIGN.md §2 C05",
       "Structural necessary conditions of 'keys do not interfere / lookups after a Put see it' (NOT linearizability over all schedules): in Index.Put/Update/Remove the read of the bucket's record list and the store of the new list happen in one exclusive bucketLk section and the stored list derives from that read; in each Flush the pool swap is one exclusive section, curPool is written only by Flush and not overwritten before the bucket table is updated after a successful write; cache lookups report a miss only after both pools; every present-outcome is behind the full-key comparison; no unprotected conflicting access pair among the foreground/flusher roots; lock order acyclic.",
-      "lock-span checks from the lockset dataflow, path rules, lockset race analysis restricted to FG/FL roots",
+      "lock-span checks from the lockset dataflow, path rules, lockset race analysis from all thread roots (foreground, flusher, both collectors)",
       COMMON_NOTE)
 
 claim("C06", "DESIGN.md §2 C06",
